@@ -105,6 +105,14 @@ def check(ctx):
     ctx.count("twin_pairs", n_tw)
     ctx.floor("twin_pairs", 5)
     check_loose(ctx, loose_for("C19"))
+    # ---------------- where=/out= ufuncs never write into the block held in the graph
+    hw = ctx.model.module("dask/array/core.py").func("_elemwise_handle_where")
+    cp = find("out = out.copy()", hw)
+    call = [r for r in returns(hw)]
+    ok = len(cp) == 1 and len(call) == 1 and dominates(hw, enclosing_stmt(cp[0][0]) if "enclosing_stmt" in dir() else cp[0][0], call[0])
+    guard = getattr(cp[0][0], "_parent", None) if cp else None
+    ok = len(cp) == 1 and len(call) == 1 and isinstance(guard, ast.If) and eqv(guard.test, "hasattr(out, 'copy')") and not guard.orelse and dominates(hw, guard, call[0]) and "out=out" in unparse(call[0].value)
+    ctx.ob("EFFECT.where-out.copy", hw, "_elemwise_handle_where copies `out` whenever it can be copied, then passes the copy as out=", ok, "" if ok else "the ufunc writes into the `out` block that the graph holds: a second compute (or any other consumer of that block) sees the already-updated values")
 
 
 VARIANTS = [
